@@ -42,6 +42,7 @@ COMPONENTS_STUB = [
 
 _dns = None
 POISON = 100000
+_ALLOC = {"n": None, "busy": False, "fired": 0, "failed_inv": set()}
 
 
 def setup():
@@ -65,6 +66,28 @@ def setup():
     funcs += threadsim.functions_of(dns.btreezone.WritableVersion, {"__init__"})
     funcs += threadsim.functions_of(dns.btreezone.ImmutableVersion, {"__init__"})
     threadsim.enable_line_preemption(funcs)
+    # fault point: a failing allocation while the admitted writer builds its private version
+    for cls in (dns.zone.WritableVersion, dns.btreezone.WritableVersion):
+        if not getattr(cls, "_verif_alloc_wrapped", False):
+            orig = cls.__init__
+
+            def init(self, *a, _orig=orig, **kw):
+                if _ALLOC["n"] is not None and threadsim._ACTIVE is not None and threadsim._ACTIVE.current is not None and not _ALLOC["busy"]:
+                    _ALLOC["busy"] = True
+                    try:
+                        _ALLOC["n"] -= 1
+                        if _ALLOC["n"] == 0:
+                            _ALLOC["n"] = None
+                            _ALLOC["fired"] += 1
+                            # this writer did get the write right; it now gives it up
+                            _ALLOC["failed_inv"].add(threadsim._ACTIVE.current.data.get("inv"))
+                            raise MemoryError("injected allocation failure in version setup")
+                    finally:
+                        _ALLOC["busy"] = False
+                return _orig(self, *a, **kw)
+
+            cls.__init__ = init
+            cls._verif_alloc_wrapped = True
     # seam audit: a fresh zone must be using the shim lock
     z = dns.versioned.Zone("example.")
     if not isinstance(z._version_lock, threadsim.ShimLock):
@@ -134,7 +157,8 @@ def gen_case(seed, tier):
         )
     if all(t["late"] for t in threads):
         threads[0]["late"] = False
-    return {"prop": PROP, "seed": seed, "cfg": cfg, "threads": threads, "schedule": None}
+    alloc_fail = wl.choice([1, 2, 3, 4]) if wl.random() < 0.12 else None
+    return {"prop": PROP, "seed": seed, "cfg": cfg, "threads": threads, "schedule": None, "alloc_fail": alloc_fail}
 
 
 # ---------------------------------------------------------------------------
@@ -296,10 +320,18 @@ class _World:
         t.phase = "in_writer"
         log.add("invoke_writer", t.idx, n)
         s.yield_point("op")
-        txn = z.writer()
+        try:
+            txn = z.writer()
+        except MemoryError:
+            # the injected allocation failure: this writer ends here, the zone must stay usable
+            self.admitted_inv.add(inv)
+            t.phase = "idle"
+            log.add("writer_failed_alloc", t.idx, n)
+            self.res.probes.inc("writer_setup_failed_zone_must_stay_usable")
+            return
         # ---- admitted ----
         t.data["txn"] = txn
-        missing = [i for i in ahead if i not in self.admitted_inv]
+        missing = [i for i in ahead if i not in self.admitted_inv and i not in _ALLOC["failed_inv"]]
         self.admitted_inv.add(inv)
         self.admissions.append((t.idx, n))
         self.open.append(t)
@@ -559,7 +591,14 @@ def run_case(case, keep_log=False):
     world.sched = sched
     for spec in case["threads"]:
         sched.spawn(lambda t, spec=spec: world.thread_main(t, spec))
-    failure = sched.run()
+    _ALLOC["n"] = case.get("alloc_fail")
+    _ALLOC["fired"] = 0
+    _ALLOC["failed_inv"] = set()
+    try:
+        failure = sched.run()
+    finally:
+        _ALLOC["n"] = None
+    res.faults.inc("alloc_failure_in_version_setup", _ALLOC["fired"])
     if failure is None:
         try:
             world.final_checks()
@@ -631,6 +670,10 @@ def shrink(case):
                 c["threads"][i]["ops"][j] = {"k": "w", "end": "commit", "serial": False, "noop": False}
                 yield c
     cfg = case["cfg"]
+    if case.get("alloc_fail") is not None and case["alloc_fail"] > 1:
+        c = copy.deepcopy(case)
+        c["alloc_fail"] -= 1
+        yield c
     for key, simple in (("filler", 0), ("slots", 1), ("max_versions", None), ("zone", "versioned"), ("relativize", True)):
         if cfg[key] != simple:
             c = copy.deepcopy(case)
@@ -658,6 +701,7 @@ EXPECTED_PROBES = [
     "preempt_point_inside_critical_section",
     "late_newcomer_started_on_quiescent_zone",
     "commit_without_change",
+    "writer_setup_failed_zone_must_stay_usable",
 ]
 
 
